@@ -299,6 +299,8 @@ def parallel(fn, items, workers=16):
 def write_evidence(prop, tier, seed, level, coverage, assumptions, wall, violations):
     # evidence/ describes runs against /repo itself; a run against a scratch worktree (VERIF_REPO) is kept apart
     evdir = os.path.join(VERIF, "evidence") if os.path.realpath(REPO) == "/repo" else os.path.join(OUT, "evidence-scratch")
+    if prop.startswith("X"):          # extension checks decide no listed property: their reports live apart
+        evdir = os.path.join(VERIF, "evidence-ext") if os.path.realpath(REPO) == "/repo" else evdir
     os.makedirs(evdir, exist_ok=True)
     ev = {"property_id": prop, "tier": tier, "seed": int(seed), "level": level, "coverage": coverage,
           "assumptions": assumptions, "wall_s": round(wall, 2), "violations": int(violations)}
